@@ -26,6 +26,8 @@
 EXTENDS Framer
 
 CONSTANTS BufSize, MaxItems, MaxFail, DefinedMids,
+          ChunkMode,      \* TRUE: the peer sends the source as an HTTP/1.1 chunked body (C12 inside the composition)
+          AllCuts,        \* chunked: every split of the source into two chunks (FALSE: three representative cuts)
           Record          \* TRUE: keep the receive script (simulation, for replay); FALSE: exhaustive runs
 
 VARIABLES net, closed, buffer, partial, call, last, rcvd, delivered,      \* SockBuf
@@ -33,7 +35,7 @@ VARIABLES net, closed, buffer, partial, call, last, rcvd, delivered,      \* Soc
           stage, src, fpos, outs, outs2, phase, fails, script
 
 IdInflate(x) == x
-S  == INSTANCE SockBuf WITH Chunked <- FALSE, Inflate <- IdInflate
+S  == INSTANCE SockBuf WITH Chunked <- ChunkMode, Inflate <- IdInflate
 F2 == INSTANCE Framer WITH pc <- pc2, cur <- cur2, obs <- obs2, got <- got2
 
 f2vars == <<pc2, cur2, obs2, got2>>
@@ -53,6 +55,18 @@ Items == GoodFrames \cup Damaged \cup Foreign
 RECURSIVE Sources(_)
 Sources(n) == IF n = 0 THEN {<< >>} ELSE LET P == Sources(n - 1) IN P \cup {p \o i : p \in P, i \in Items}
 
+\* what the peer puts on the wire: the source itself, or the source as a chunked body of one or
+\* two chunks (every cut, or three representative ones) followed by the zero chunk
+HexD(d) == IF d < 10 THEN 48 + d ELSE 87 + d
+Hex(n) == IF n < 16 THEN <<HexD(n)>> ELSE <<HexD(n \div 16), HexD(n % 16)>>
+Chunk(d) == Hex(Len(d)) \o <<13, 10>> \o d \o <<13, 10>>
+ZeroChunk == <<48, 13, 10, 13, 10>>
+CutSet(n) == IF AllCuts THEN 1 .. (n - 1) ELSE {1, n \div 2, n - 1} \cap (1 .. (n - 1))
+Wires(s) ==
+  IF ~ChunkMode THEN {s}
+  ELSE IF s = << >> THEN {ZeroChunk}
+  ELSE {Chunk(s) \o ZeroChunk} \cup {Chunk(SubSeq(s, 1, c)) \o Chunk(SubSeq(s, c + 1, Len(s))) \o ZeroChunk : c \in CutSet(Len(s))}
+
 TinyOutcome(pl) ==
   IF Len(pl) < 2 THEN [k |-> "err", cls |-> "RTCMTypeError"]
   ELSE IF (pl[1] * 16 + pl[2] \div 16) \in DefinedMids THEN [k |-> "err", cls |-> "RTCMTypeError"]
@@ -67,7 +81,7 @@ Proj(o) == <<o.ev, o.cls, o.raw>>
 Init ==
   /\ \E o \in OptCore : FInit(o[1], o[2], o[3])
   /\ pc2 = "idle" /\ cur2 = << >> /\ obs2 = Obs0 /\ got2 = << >>
-  /\ \E s \in Sources(MaxItems) : src = s /\ S!SInit(s)
+  /\ \E s \in Sources(MaxItems) : \E w \in Wires(s) : src = s /\ S!SInit(w)
   /\ stage = "file" /\ fpos = 0 /\ outs = << >> /\ outs2 = << >> /\ phase = "issue" /\ fails = 0 /\ script = << >>
 
 \* ---- stage "file": the reference run ----------------------------------------
@@ -151,6 +165,8 @@ SameMessages == stage = "done" => Rets(outs) = Rets(outs2)
 SameReports == stage = "done" => outs = outs2
 \* nothing of the source is left behind in the wrapper
 Drained == stage = "done" => (net = << >> /\ buffer = << >>)
+\* what the wrapper has handed to the reader is the source (chunked: the decoded body)
+DeliveredIsSource == stage = "done" => delivered = src
 \* the socket run ends
 Ends == <>(stage = "done")
 \* SockBuf's own invariants hold inside the composition
@@ -158,5 +174,5 @@ SockPrefixOK == S!PrefixOK
 SockSizeOK == S!SizeOK
 
 \* simulation: print every finished run for replay on the real code
-RunOut == stage = "done" => PrintT(<<"SFRUN", src, script, <<validate, parsed, quit>>, outs>>)
+RunOut == stage = "done" => PrintT(<<"SFRUN", rcvd, script, <<validate, parsed, quit>>, outs>>)
 =============================================================================
